@@ -39,9 +39,9 @@ CHECKS = {
    technique="deterministic simulation: seeded decider behind the sampler's RNG seam and the fork-join seam, state-vector reference model (support, pointwise conditional-probability and chi-square oracles), fault injection around the real CLI, shrinking + replay files"),
  "C05": dict(
    category="exploration",
-   text="Seeded simulation of the decomposer: one decider owns the generated closed Clifford+T diagram and configuration and, through cfg-gated seams, every ambient RNG draw of the random drivers, every RandomState key of the dynamic-T driver, and for parallel executions the worker count (1..16), the execution order of the tasks of every (nested) fork-join region and their workers. Every scenario runs sequentially and in parallel twice: once in the sequentialised fork-join model (whole tasks in decider order) and, in every second run, on the simulated worker pool (W real OS threads of which one runs at a time, decider-chosen switches at task start/end, at seams, at joins), which interleaves sibling tasks of different regions; engine E2 additionally runs the shipped rayon code under Miri's seeded scheduler; results are compared exactly (Z[omega]/2^k) with an independent evaluator of the original diagram, every decomposition step and component split is checked for conservation while the run proceeds, and sequential/parallel results are compared with each other. Sub-batches: saved Clifford terms of open diagrams, and apply_decomp on embedded sites. Sampling, not enumeration.",
+   text="Seeded simulation of the decomposer: one decider owns the generated closed Clifford+T diagram and configuration and, through cfg-gated seams, every ambient RNG draw of the random drivers, every RandomState key of the dynamic-T driver, and for parallel executions the worker count (1..16), the execution order of the tasks of every (nested) fork-join region and their workers. Every scenario runs sequentially and in parallel twice: once in the sequentialised fork-join model (whole tasks in decider order) and, in every second run, on the simulated worker pool (W real OS threads of which one runs at a time, decider-chosen switches at task start/end, at seams, at joins, and - through quizx::verif::std_shim, which every source file sees as `std` under the guard - at every atomic and lock operation of the crate), which interleaves sibling tasks of different regions; engine E2 additionally runs the shipped rayon code under Miri's seeded scheduler; results are compared exactly (Z[omega]/2^k) with an independent evaluator of the original diagram, every decomposition step and component split is checked for conservation while the run proceeds, and sequential/parallel results are compared with each other. Sub-batches: saved Clifford terms of open diagrams, and apply_decomp on embedded sites. Sampling, not enumeration.",
    design_ref="DESIGN.md §2.3, §4 C05",
-   note="Trusted: the harness evaluator/ring (cross-checked against the gate simulator on harness-translated circuits at every start), the two fork-join models (sequentialised whole tasks; simulated worker pool with switches at task boundaries, seams and joins - no preemption between ordinary instructions, no weak-memory effects: those are left to the small E2 Miri sample; a syntactic audit of quizx/src for Mutex/Atomic/RefCell/unsafe/static mut runs with every check and is reported in the evidence). Bounds: <=14 spiders, T-count <=10 quick / <=14 thorough, circuits <=4 qubits. Budget overruns are reported as inconclusive (exit 2 above 1%), never as violations: the property does not state termination.",
+   note="Trusted: the harness evaluator/ring (cross-checked against the gate simulator on harness-translated circuits at every start), the two fork-join models (sequentialised whole tasks; simulated worker pool with switches at task boundaries, seams and joins - preemption only at those points, i.e. sequentially consistent interleavings at the granularity of atomic / lock operations; weak-memory effects and sync types not spelled std::sync are left to the small E2 Miri sample; a syntactic audit of quizx/src for Mutex/Atomic/RefCell/unsafe/static mut runs with every check and is reported in the evidence). Bounds: <=14 spiders, T-count <=10 quick / <=14 thorough, circuits <=4 qubits. Budget overruns are reported as inconclusive (exit 2 above 1%), never as violations: the property does not state termination.",
    technique="deterministic simulation: seeded decider behind RNG / hash-order / fork-join seams (sequentialised model + simulated worker pool with a baton scheduler; real rayon under Miri as second engine), exact-evaluator oracle + per-step conservation invariants + sequential/parallel twin, shrinking + replay files",
    engine="qsim + qmiri"),
  "C13": dict(
